@@ -561,11 +561,12 @@ def jobs_C18(tier, seed):
             jobs.append(job(f'fail shutdown subconc=1 {[t["op"] for t in trs]}', s, BD(tier)['FAULT'], want, max_execs=1000000))
             s = scn(copy.deepcopy(trs), dict(C1), seed=seed, script='shutdown', victims=[victim],
                     inject=[{'kind': 'cancel', 'target': victim}])
-            jobs.append(job(f'cancel shutdown subconc=1 {[t["op"] for t in trs]}', s, BD(tier)['CANCEL'], want, max_execs=1000000))
+            jobs.append(job(f'cancel shutdown subconc=1 {[t["op"] for t in trs]}', s,
+                            {'inject': 1, 'sched': 0} if q else BD(tier)['CANCEL'], want, max_execs=1000000))
         for script in ('shutdown', 'wait', 'with'):
             deep = (script == 'shutdown' and (not q or ci in (0, 3)))
             fb = BD(tier)['FAULT'] if deep else {'env': 1, 'sched': 0}
-            cb = BD(tier)['CANCEL'] if deep else {'inject': 1, 'sched': 0}
+            cb = BD(tier)['CANCEL'] if (deep and (not q or ci == 0)) else {'inject': 1, 'sched': 0}
             # victim fails: faults restricted to the victim's key
             s = scn(copy.deepcopy(trs), dict(C), seed=seed, script=script, victims=[victim],
                     faults={'sites': ['s3:', 'stream:fatal', 'fs:write', 'src:read', 'sink:write'], 'only_key': victim})
